@@ -1,4 +1,5 @@
 import LibconfigModel.Step
+import LibconfigModel.Proofs.F64Exact
 /-
   C07 — typed get/set follow the documented conversion rules.  For every stored
   type, stored value, requested type and setting of auto-convert, as equations.
@@ -178,6 +179,24 @@ theorem C07_int64_into_int (auto : Bool) (n : Node) (v : Int) (h : n.ty = T_INT)
   by_cases hf : fits32 v = true
   · rw [if_pos hf, hf]; rfl
   · rw [if_neg hf]; simp at hf; rw [hf]; rfl
+
+/-- a 32-bit integer converts to float exactly: after `set_int` on a float setting (with
+auto-conversion) the stored double is finite, has the sign of `v`, and its mantissa and
+exponent denote |v| exactly -/
+theorem C07_int_to_float_exact (n n' : Node) (v : Int) (hty : n.ty = T_FLOAT) (hv : fits32 v = true)
+    (h : n.setInt true v = some n') :
+    n'.getFloat true = some (F64.ofInt v) ∧ F64.isFinite (F64.ofInt v) = true ∧
+    ((F64.expo (F64.ofInt v) ≥ 0 ∧ F64.mant (F64.ofInt v) * 2 ^ (F64.expo (F64.ofInt v)).toNat = v.natAbs) ∨
+     (F64.expo (F64.ofInt v) < 0 ∧ F64.mant (F64.ofInt v) = v.natAbs * 2 ^ (-(F64.expo (F64.ofInt v))).toNat)) := by
+  have hx := F64.ofInt_exact v hv
+  simp only at hx
+  refine ⟨?_, hx.1, hx.2.2⟩
+  rw [C07_set_int] at h
+  have h0 : ¬ n.ty = T_NONE := by rw [hty]; decide
+  have h1 : ¬ (n.ty = T_INT ∨ n.ty = T_INT64) := by rw [hty]; decide
+  rw [if_neg h0, if_neg h1, if_pos hty] at h
+  simp at h; subst h
+  simp [C07_get_float, hty]
 
 /-! ### a mismatching set leaves the setting unchanged; accessor families -/
 
